@@ -130,6 +130,8 @@ func (sc *ServerConnection) handshake(conn *streams.BufferedInputConnection) err
 	if !sc.secure {
 		if sc.manager != nil {
 			if c, err := sc.manager.GetTlsConfig(); err != nil {
+				// The demand for client certificates does not go away with the key material
+				sc.requireTls = clientCertRequired(sc.manager)
 				log.WithError(err).Warnf("Could not get X509 key pair, will not be able to advertise STARTTLS")
 			} else if c != nil && c.Certificates != nil && len(c.Certificates) > 0 {
 				sc.supportTls = true
@@ -318,4 +320,10 @@ all:
 		}
 	}
 	return negotiatedVersion
+}
+
+// clientCertRequired tells if the manager demands client certificates, without loading its key material
+func clientCertRequired(manager cert.TlsConfig) bool {
+	r, ok := manager.(interface{ ClientCertRequired() bool })
+	return ok && r.ClientCertRequired()
 }
